@@ -22,7 +22,7 @@ EXPLANATION = (
 )
 MANIFEST_ENTRY = {
     "category": "other",
-    "text": "Bounded symbolic (differential) checking of the real expression-lifting machinery: lifted expression == plain Python on the sampled leaves for all leaf values, lazy operands evaluated in context, and soundness of every reported support interval for all operand supports and values.",
+    "text": "Bounded symbolic (differential) checking of the real expression-lifting machinery: lifted expression == plain Python on the sampled leaves (value and type) for all leaf values, on a fixed corpus and on seeded generated expressions, lazy operands evaluated in context, and soundness of every reported support interval for all operand supports and values.",
     "note": "Trusted: CrossHair, z3, reals for floats; the reference is ordinary Python evaluation of the same expression. Bounds: expression depth <= 3, <= 3 leaves. Outside: type-inference annotations, TruncatedNormal sampling.",
 }
 ASSUMPTIONS = ["floats are reals"]
